@@ -45,6 +45,7 @@ ssize_t __real_write(int, const void*, size_t);
 ssize_t __real_read(int, void*, size_t);
 DIR* __real_opendir(const char*);
 DIR* __real_fdopendir(int);
+FILE* __real_fdopen(int, const char*);
 struct dirent* __real_readdir(DIR*);
 struct dirent64* __real_readdir64(DIR*);
 int __real_closedir(DIR*);
@@ -811,6 +812,73 @@ DIR* __wrap_opendir(const char* path) {
     g_dirs[d] = -1;
   errno = e;
   return d;
+}
+
+// A stream over a control file whose medium fails in the middle: the first
+// `budget` bytes arrive, the next read answers EIO (stdio reads through glibc
+// internals that --wrap=read cannot reach, hence a cookie stream).
+struct EioCookie {
+  int fd;
+  ssize_t budget;
+};
+static ssize_t eioRead(void* c, char* buf, size_t n) {
+  EioCookie* k = (EioCookie*)c;
+  if (k->budget <= 0) {
+    errno = EIO;
+    return -1;
+  }
+  ssize_t r = __real_read(k->fd, buf, std::min<size_t>(n, (size_t)k->budget));
+  if (r > 0)
+    k->budget -= r;
+  if (r == 0) { // shorter than expected: fail right here
+    errno = EIO;
+    return -1;
+  }
+  return r;
+}
+static int eioClose(void* c) {
+  EioCookie* k = (EioCookie*)c;
+  int r = __real_close(k->fd);
+  {
+    TsanIgnore ig;
+    g_fds.erase(k->fd);
+  }
+  delete k;
+  return r;
+}
+
+FILE* __wrap_fdopen(int fd, const char* mode) {
+  if (!armed())
+    return __real_fdopen(fd, mode);
+  TsanIgnore ig;
+  const FdInfo* fi = fdInfo(fd);
+  if (fi && (fi->kind == FdInfo::CGFILE || fi->kind == FdInfo::PROC) &&
+      !fi->writable) {
+    const Cg* c = fi->inc >= 0 ? W.byInc(fi->inc) : nullptr;
+    if (auto f = miscFault("eio-mid", fi->name, c)) {
+      (void)f;
+      struct stat st;
+      ssize_t sz = ::fstat(fd, &st) == 0 ? (ssize_t)st.st_size : 0;
+      if (sz >= 2) {
+        // stop inside a line: after the first half, but never right behind a
+        // newline (a cut on a line boundary is indistinguishable from EOF
+        // followed by an error and is reported either way)
+        ssize_t cut = sz / 2;
+        std::string head((size_t)cut, '\0');
+        ssize_t got = ::pread(fd, head.data(), (size_t)cut, 0);
+        while (got > 1 && head[(size_t)got - 1] == '\n')
+          got--;
+        if (got >= 1) {
+          fired("eio-mid");
+          record("read-fault", label(fi->inc), fi->name, "eio-mid", got, 0, -EIO,
+                 fi->inc);
+          cookie_io_functions_t io = {eioRead, nullptr, nullptr, eioClose};
+          return fopencookie(new EioCookie{fd, got}, "r", io);
+        }
+      }
+    }
+  }
+  return __real_fdopen(fd, mode);
 }
 
 DIR* __wrap_fdopendir(int fd) {
